@@ -574,7 +574,8 @@ func execStateMethods(c *Ctx, which map[string]bool) {
 			ok := true
 			for _, p := range ps {
 				evs := impure(p)
-				good := p.Exit == ExitReturn && len(evs) >= 2 && isCall(evs[0], "Lock") && isCall(evs[len(evs)-1], "Unlock") && p.Rets[0].Op == "alloc"
+				// copy only reads the execution: the shared mode of a sync.RWMutex serves as well
+				good := p.Exit == ExitReturn && len(evs) >= 2 && ((isCall(evs[0], "Lock") && isCall(evs[len(evs)-1], "Unlock")) || (isCall(evs[0], "RLock") && isCall(evs[len(evs)-1], "RUnlock"))) && p.Rets[0].Op == "alloc"
 				if good {
 					// every field of the copy equals the original's
 					for _, f := range []string{"lastResult", "lastError", "ctx", "attempts", "retries", "hedges", "executions", "canceledResult", "mtx", "startTime", "attemptStartTime", "isHedge", "cancelFunc"} {
@@ -1007,7 +1008,13 @@ func executeAsyncRule(c *Ctx) {
 		"policies": {"failsafe.NewExecutor"},
 	} {
 		good := true
-		for _, w := range ix.Writers(FieldRef{Type: "executor", Pkg: "failsafe", Field: field}) {
+		for _, wa := range ix.WriteAccesses(FieldRef{Type: "executor", Pkg: "failsafe", Field: field}) {
+			w := wa.Fn
+			// a store into an executor object the function allocated itself (a constructor, a copy) cannot touch a
+			// shared one
+			if fa, isFA := wa.Instr.(*ssa.FieldAddr); isFA && isPrivateBase(fa.X) {
+				continue
+			}
 			if !ix.WithinNames(w, allowed...) {
 				good = false
 				c.Fail("failsafe.executor."+field+"#writers", c.P.FuncPos(w), "the shared executor's "+field+" is written by "+c.fn(w)+": executions started from one executor must not affect each other (a per-execution context written back into the executor makes later executions children of an earlier one, so cancelling one cancels the others)", "")
